@@ -5,7 +5,8 @@ CONFIG = dict(
     level_text="Machine-checked proof in Lean 4 that the model of message.Encode/Decode and of the packet encoder/decoder round-trips every "
                "message/packet list within protocol limits and that no byte string makes a checked index/slice fail (oob = Go panic); the model is tied "
                "to the Go code on every run by executing both on ~74k generated op lines (all byte strings <=2 bytes exhaustively, valid messages, "
-               "truncations, mutations, malformed packet streams, SetDictionary calls with blank-padded keys, two/many calls on one long-lived packet decoder "
+               "truncations, mutations, malformed packet streams, encoder output re-read through the real tcpPlayerConn.GetNextMessage under many fragmentations, "
+               "zlib round trips up to 17 MiB (32 MiB thorough), SetDictionary calls with blank-padded keys, two/many calls on one long-lived packet decoder "
                "with earlier results read again, ~2300 real ClientSessions each fed one generated Data packet) and the property predicate is evaluated on the "
                "implementation's own outputs; a death of the harness process (panic on a session's reader goroutine) is a witness (C06/server-crash).",
     level_note="Trusted: Lean kernel, the harness/driver line protocol and canonicalisation, zlib as an abstract inverse pair (validated per payload), "
@@ -17,8 +18,10 @@ CONFIG = dict(
     audit="Audit/C06.lean",
     required_theorems=["decode_encode", "decode_total", "packets_roundtrip", "varint_roundtrip", "header_roundtrip", "SetDictionary_bijective", "decode_encode_any_dictionary", "frame_ok_iff_valid",
                        "trim_spec", "SetDictionary_stores_trimmed_key", "SetDictionary_order_independent",
-                       "earlier_results_unchanged", "session_never_crashes", "session_closed_iff", "session_delivers_encoded"],
+                       "earlier_results_unchanged", "session_never_crashes", "session_closed_iff", "session_delivers_encoded",
+                       "stream_fragmentation_independent", "fragmented_stream_roundtrip", "stream_fuel_enough"],
     harness_pkg="./c06",
+    go_flags=["-overlay=/verif/harness/c06/overlay/overlay.json"],
     mode="diff",
     runs={
         "quick": [dict(name="main", env={"VERIF_N": "4000"}, timeout=240)],
@@ -37,6 +40,10 @@ CONFIG = dict(
          "PlayerConn with the real pomelo.SessionsImpl/sche.Sche/impls.ClientSessions and a recording ISessionsHandler, handshake + ack, then one Data packet "
          "(every message of length <=1, every flag byte x 7 tails, valid/truncated/mutated/random/varint-stress encodings), observation delivered <reqid,route,data> | closed, "
          "the trace is flushed before the packet is released so that a dying process leaves the staged input as witness; "
+         "stream layer: encoder-framed packets (bodies 0..9000 B quick, up to 70 kB thorough, one 100 kB body) cut into fragments (one byte at a time, every K bytes incl. MTU sizes, "
+         "inside headers, header|body, at frame boundaries, random cuts, none) and read back through the real tcpPlayerConn.GetNextMessage over a fragmenting net.Conn + packet decoder (srt); "
+         "raw malformed/truncated streams in random fragments incl. empty reads (gnm); zlib: DeflateData/InflateData and Encode(compression)/Decode of compressible payloads of "
+         "1000 B, 2^24+1 B and 17 MiB in quick, plus 2^24-1, 2^24, 24 MiB, 32 MiB in thorough, compared byte for byte in the harness (observation: length + equality flag) (zrt); "
          "a case is non-trivial when the implementation's observation is a value (not a bare error); distinct = distinct (op, observation) pairs",
     trusted_base=[
         "Lean 4.33.0 kernel; axioms of every property theorem audited on each run (allowed: propext, Classical.choice, Quot.sound)",
@@ -51,6 +58,11 @@ CONFIG = dict(
         "session stream: the harness's scripted PlayerConn replaces the TCP/WS acceptor conn (GetNextMessage hands over one framed packet, as tcpPlayerConn does); "
         "the harness goroutine plays the owner service (drains sche.Sche); a panic on the reader goroutine kills the harness process and is reported by bin/check "
         "as pseudo-op <harness-exit ...>, which the spec monitor maps to C06/server-crash",
+        "white-box shim harness/c06/overlay/export_verif.go (one line, mapped into package acceptor with `go test -overlay`; nothing under /repo is modified): builds the unexported "
+        "tcpPlayerConn around a net.Conn exactly as TCPAcceptor.serve does; the harness's fragConn (one Read never crosses a fragment boundary, io.EOF at the end) stands for the TCP socket; "
+        "the model reads fragments with readN = ReadAll(LimitReader(conn, n)) at fragment granularity (theorem stream_fragmentation_independent: only the concatenation matters)",
+        "zrt: payload equality is decided inside the harness (string compare of inflated vs. original), the observation carries only length and the equality flag; the model side is the "
+        "abstract inverse pair inflate(deflate x) = x for every size",
         "harness canonicalisation (error kinds collapsed to 'err', panics caught by recover and mapped to 'panic')",
     ],
     assumptions=[
